@@ -121,11 +121,8 @@ def check(run: Run, ctx) -> None:
                        "bodies) -> generated client imported in a fresh interpreter -> each operation called twice (random subset of optionals; all "
                        "optionals) against httpx.MockTransport; captured request compared with the plan. Distinct by (document, operation, arguments); "
                        "non-trivial when at least one argument is passed")
-    try:
-        from . import C04_corr
-        C04_corr.run(run, ctx)
-    except ImportError:
-        pass
+    from . import _generic as g
+    g.run_corr(run, ctx, "vf.corr.gencode", "GenCode (buildRequest/handle on generated clients, both transports)", quick=0.4, thorough=3.0)
     cases = build_cases(ctx, "mainstream", ctx.budget(24, 240)) + build_cases(ctx, "wide", ctx.budget(12, 120))
     results = e2e.run_cases("vf.props.C04:case_fn", cases)
     for case, res in zip(cases, results):
